@@ -616,3 +616,56 @@ theorem rt_full (env : Env) (henv : EnvWF env) : ∀ v, RT env v ∧ SChunk env 
                 | panic w' => simp [h1] at he
     | _ => simp [enc, illTyped] at he
 
+
+/-- the four statements of the headerless development, now for every well-formed environment -/
+theorem rt_wf (env : Env) (henv : EnvWF env) (v : Val) : RT env v := (rt_full env henv v).1
+
+theorem plainFreeB_nil_mo (steps : List Step) : ∀ (fields : List Field) (dc : List Nat),
+    plainFreeB steps [] dc fields = true := by
+  intro fields
+  induction fields with
+  | nil => intro dc; simp [plainFreeB]
+  | cons f fs ih =>
+    intro dc
+    unfold plainFreeB
+    cases f.role <;> simp [ih]
+
+/-- a headerless declaration whose transient fields have defaults is well-formed -/
+theorem declWFb_of_v0 (d : Decl) (hs : d.steps = []) (hf : FieldsOK d.fields) : declWFb d = true := by
+  unfold declWFb
+  simp only [hs, List.all_nil, Bool.and_true, removedForm, List.filterMap_nil, List.map_nil, List.not_mem_nil,
+    decide_false, Bool.not_false, Bool.or_true, madeOptPositions, plainFreeB_nil_mo, Bool.and_eq_true, List.all_eq_true]
+  refine ⟨fun f hfm => ?_, fun f hfm => by simp⟩
+  cases hr : f.role with
+  | transient => simpa using hf f hfm hr
+  | plain => simp
+  | optional => simp
+
+/-- `EnvWF` generalises the headerless case -/
+theorem EnvV0.toWF {env : Env} (h : EnvV0 env) : EnvWF env :=
+  ⟨fun id d hd => declWFb_of_v0 d (h.rec_ id d hd).1 (h.rec_ id d hd).2,
+   fun id n srt cs hd => ⟨(h.enum_ id n srt cs hd).1, fun c hc =>
+     declWFb_of_v0 c.decl ((h.enum_ id n srt cs hd).2 c hc).1 ((h.enum_ id n srt cs hd).2 c hc).2⟩⟩
+
+theorem EnvWF_nil : EnvWF [] := EnvV0_nil.toWF
+
+theorem find_mem {env : Env} {id : String} {td : TyDecl} (h : env.find id = some td) : ∃ k, (k, td) ∈ env := by
+  induction env with
+  | nil => simp [Env.find] at h
+  | cons p rest ih =>
+    obtain ⟨k, d⟩ := p
+    simp only [Env.find] at h
+    split at h
+    · simp at h; exact ⟨k, by simp [h]⟩
+    · obtain ⟨k', hk⟩ := ih h; exact ⟨k', by simp [hk]⟩
+
+/-- the evaluated check gives the hypothesis of the round-trip theorems -/
+theorem EnvWF_of_check {env : Env} (h : envWFb env = true) : EnvWF env := by
+  simp only [envWFb, List.all_eq_true] at h
+  refine ⟨fun id d hd => ?_, fun id n srt cs hd => ?_⟩
+  · obtain ⟨k, hk⟩ := find_mem hd
+    simpa [tyDeclWFb] using h _ hk
+  · obtain ⟨k, hk⟩ := find_mem hd
+    have := h _ hk
+    simp only [tyDeclWFb, Bool.and_eq_true, decide_eq_true_eq, List.all_eq_true] at this
+    exact this
